@@ -89,6 +89,8 @@ def gen_helper_family(rng, stem, utf8, om, exemplars=False, units=False):
     unit = ''
     if units and kind not in ('info', 'stateset') and rng.random() < 0.4:
         unit = rng.choice(['seconds', 'bytes', 'x'])
+        if utf8 and rng.random() < 0.35:
+            unit = adv_string(rng, 4, empty_ok=False)     # any string the constructors accept in UTF-8 mode
     nchild = rng.randrange(1, 3) if k else 1
     used = set()
 
@@ -114,7 +116,7 @@ def gen_helper_family(rng, stem, utf8, om, exemplars=False, units=False):
             labels[('e%d' % i) + (adv_string(rng, 2) if utf8 and rng.random() < 0.3 else '')] = adv_string(rng, 4)
         t = None
         if rng.random() < 0.5:
-            t = rng.choice([1, 1.5, 123.456, rng.randrange(0, 10 ** 9) / 8.0])
+            t = rng.choice([0, 0.0, 1, 1.5, 123.456, rng.randrange(0, 10 ** 9) / 8.0])
         return Exemplar(labels, gen_value(rng), t)
     if kind == 'counter':
         f = core.CounterMetricFamily(name, doc, labels=lnames, unit=unit)
